@@ -490,7 +490,7 @@ Proof. exact stored_value_never_absent. Qed.
 
 Theorem C14_bloom_absent_means_no_failure : forall ps,
   fst (lookup ps) = Absent ->
-  snd (lookup ps) = length ps /\ forall p, In p ps -> p_needs_read p && p_faulted p = false.
+  snd (lookup ps) = length ps /\ forall p, In p ps -> p_needs_read p && p_faulted p = false /\ load_fails p = false.
 Proof. exact absent_means_no_failure. Qed.
 
 (* non-vacuity, and the behaviour the statement excludes: three row groups,
@@ -498,10 +498,13 @@ Proof. exact absent_means_no_failure. Qed.
    lookup fails; a lookup that takes the failed filter for "not here" finds
    the value, but reports it absent when the failing filter is the third *)
 Example C14_bloom_example :
-  lookup [mkPart true false false; mkPart true true false; mkPart true false true] = (Failed, 2%nat) /\
-  lookup [mkPart true false false; mkPart false true false; mkPart true false true] = (Maybe, 3%nat) /\
+  lookup [mkPart true false false false; mkPart true true false false; mkPart true false true false] = (Failed, 2%nat) /\
+  lookup [mkPart true false false false; mkPart false true false false; mkPart true false true false] = (Maybe, 3%nat) /\
   multi_check_absorbing [Absent; Absent; Failed] = Absent /\
-  fst (lookup [mkPart true false false; mkPart true false false; mkPart true true true]) = Failed.
+  fst (lookup [mkPart true false false false; mkPart true false false false; mkPart true true true false]) = Failed /\
+  (* the value is in the first row group, the filter of the second one is loaded lazily and fails to load *)
+  lookup [mkPart true false true true; mkPart true true false true] = (Failed, 0%nat) /\
+  lookup [mkPart true false true false; mkPart true true false false] = (Maybe, 1%nat).
 Proof. vm_compute. repeat split. Qed.
 
 (* the items which are ordinary sites are the model of Sink/Model.v *)
